@@ -1,6 +1,7 @@
 SPECIFICATION Spec
 CONSTANTS Family = "unfold"
           MaxEdits = 3
+          UnivKinds = {"complete", "leafonly", "noisy"}
           WithGt = TRUE
 INVARIANT UnfoldIsDenote
 INVARIANT ErrorOnlyWhenDenoted
